@@ -109,12 +109,12 @@ class Truth:
         return [con[0] for con in self.cons if self.con_value(con, asg) == infinity]
 
 
-def same_cost(a, b, rel=1e-9):
-    if a == b:
-        return True
+def same_cost(a, b, rel=None):
+    """Exact comparison: every generated cost is an int or a multiple of 0.25, so all sums are
+    exactly representable as float64 (no tolerance that could hide an off-by-one at 1e10)."""
     try:
-        if math.isinf(a) or math.isinf(b):
-            return False
-        return abs(a - b) <= rel * max(1.0, abs(a), abs(b))
+        if a == b:
+            return True
+        return a != a and b != b          # nan == nan
     except TypeError:
         return False
